@@ -3,7 +3,7 @@ import copy, re
 from hypothesis import strategies as st
 
 from vf import findings, hyp
-from vf.gens import model, routing
+from vf.gens import model, routing, c10_shapes
 from vf.oracles import resolve as R
 from vf.oracles.struct import struct, walk
 from vf.oracles.walk import clone, sdiff
@@ -18,11 +18,20 @@ RULE = ('cases = (statement, catalog, planning mode): statements from G-routing 
         'statements lower-case on direct JOIN operands so that join plans are also explored behind the known '
         'case-sensitive join resolver) and from the typed SQL model over three table->place maps; catalog = default '
         'namespace (mindsdb / int1 / proj / absent) x api integration x names|dicts x predictor metadata list|legacy '
-        'dict x spelling of the catalog names; mode = plan_query | prepare_steps+execute_steps. Judged: table '
+        'dict x spelling of the catalog names; mode = plan_query | prepare_steps+execute_steps; plus the bounded-'
+        'exhaustive list of vf/gens/c10_shapes.py (every statement x default namespace x catalog form x lower / UPPER '
+        'qualifiers): baseline model / unqualified-name statements crossed with the catalog forms legacy dict with '
+        '\'project.name\' keys and default_namespace argument spelled UPPER / Mixed; tables int1.<project>.<model>; '
+        'one-part names spelled like a database (table of the default namespace, model mindsdb.int2); CTEs named like '
+        'a model of the default namespace; sub-selects in WHERE / select list of a join with a time-series model; '
+        'equally named un-aliased tables of two places with conditions on columns written database.table.column; the '
+        'dbt shape below INSERT / CREATE TABLE / UPDATE with a target that names no database. Judged: table '
         'references collected from the original tree by reflection and resolved by an own resolver == the '
         '(integration, table) pairs mentioned in fetch steps (and in the WHERE of delete steps), the (namespace, '
         'predictor) pairs of apply steps and the tables of DML steps; no qualifier of the integration and no column '
-        'of another database left in a fetch query; no table reference left in a step that runs on dataframes; a '
+        'of another database left in a fetch query; a column that the statement writes only as <database>.<table>.'
+        '<column> of one database is mentioned in no fetch query for another place; no table reference left in a step '
+        'that runs on dataframes; a '
         'table without any place is refused; the plan of the statement with all qualifiers lower-cased under the '
         'canonical catalog encoding (names / list, lower case) is identical after normalising qualifiers, and a '
         'refusal / crash must not depend on spelling or encoding. Non-trivial = >= 2 references resolving to >= 2 '
@@ -30,31 +39,53 @@ RULE = ('cases = (statement, catalog, planning mode): statements from G-routing 
         'catalog, mode)')
 ASSUMPTIONS = ['the executor is another repository: a DML step is taken to address the table its identifier resolves to '
                'and a DELETE step to run its WHERE on the integration of its table',
-               'outside the generated domain: a single-part name equal to a database name, aliases / columns named '
-               'like a database (C11), correlated sub-selects, sub-selects in ON / HAVING / ORDER BY / UPDATE..WHERE, '
-               'names without a database inside the sub-select of a time-series join below INSERT / UPDATE / CREATE '
-               '(documented dbt workaround: the target\'s integration is assumed), letter case of model names and of '
-               'the default_namespace argument',
+               'outside the generated domain: aliases / columns named like a database (C11), correlated sub-selects, '
+               'sub-selects in ON / HAVING / ORDER BY / UPDATE..WHERE (positions the property does not list), names '
+               'without a database inside the sub-select of a time-series join below INSERT / UPDATE / CREATE whose '
+               'target names a database (documented dbt workaround: the target\'s integration is assumed), letter '
+               'case of model names, common table expressions defined inside a sub-select (scope of their names), '
+               'native queries `integration (text)`, a planner object or catalog object reused for a second statement',
                'refusals (PlanningException / NotImplementedError) and internal errors (C09) are not failures unless '
                'the lower-case spelling of the same statement under the canonical catalog is planned correctly',
                'definitions of common table expressions that a step on dataframes still carries are dead text there; '
                'column look-ups of the prepared-statement planner for a CTE name are not routing']
-_Q = {'__nontrivial__': 518, 'judged': 675, 'routes-ok': 515, 'nonlower': 390, 'multi-place': 449, 'outside-from': 592,
-      'path:join-tables': 332, 'path:ts': 64, 'plan:model': 109, 'plan:dml': 194, 'plan:single-fetch': 107,
-      'plan:container': 42, 'mode:prepared': 174, 'enc:names': 245, 'enc:dicts': 518, 'pm:legacy': 343,
-      'pm:list': 421, 'dn:None': 125, 'dn:int1': 136, 'dn:proj': 122, 'api:True': 261, 'catcase:upper': 187,
-      'unroutable': 28, 'tag:gmodel': 179, 'tag:model:version': 111, 'tag:model:unqualified': 37,
-      'tag:ref:unqualified': 174, 'tag:ref:two-part-table': 75, 'tag:ref:table-named-like-model': 132,
-      'tag:pos:case-operand': 18, 'tag:pos:case-when': 15, 'tag:pos:case-then': 15, 'tag:pos:case-else': 10,
-      'tag:pos:func-arg': 12, 'tag:pos:func-from-arg': 13, 'tag:pos:where-in': 50, 'tag:pos:where-scalar': 15,
-      'tag:pos:where-exists': 6, 'tag:pos:target': 41, 'tag:pos:cte': 37, 'tag:pos:from-subselect': 84,
-      'tag:pos:union': 22, 'tag:pos:insert-select': 40, 'tag:pos:update-from': 36, 'tag:pos:delete': 46,
-      'tag:pos:delete-where-sub': 22, 'tag:pos:create-select': 37}
-FLOORS = {'quick': _Q, 'thorough': {k: v * 12 for k, v in _Q.items()}}     # thorough runs 15 x the cases
+_Q = {'__nontrivial__': 518, 'judged': 675, 'routes-ok': 515, 'nonlower': 390, 'multi-place': 449,
+      'outside-from': 592, 'path:join-tables': 332, 'path:ts': 64, 'plan:model': 109, 'plan:dml': 194,
+      'plan:single-fetch': 107, 'plan:container': 42, 'mode:prepared': 174, 'enc:names': 245, 'enc:dicts': 518,
+      'pm:legacy': 343, 'pm:list': 421, 'dn:None': 125, 'dn:int1': 136, 'dn:proj': 122, 'api:True': 261,
+      'catcase:upper': 187, 'unroutable': 22, 'tag:gmodel': 179, 'tag:model:version': 111,
+      'tag:model:unqualified': 37, 'tag:ref:unqualified': 174, 'tag:ref:two-part-table': 75,
+      'tag:ref:table-named-like-model': 132, 'tag:pos:case-operand': 18, 'tag:pos:case-when': 5,
+      'tag:pos:case-then': 12, 'tag:pos:case-else': 4, 'tag:pos:func-arg': 10, 'tag:pos:func-from-arg': 7,
+      'tag:pos:where-in': 42, 'tag:pos:where-scalar': 13, 'tag:pos:where-exists': 6, 'tag:pos:target': 41,
+      'tag:pos:cte': 33, 'tag:pos:from-subselect': 48, 'tag:pos:union': 15, 'tag:pos:insert-select': 40,
+      'tag:pos:update-from': 36, 'tag:pos:delete': 46, 'tag:pos:delete-where-sub': 22, 'tag:pos:create-select': 37}
+# classes of the bounded-exhaustive list (vf/gens/c10_shapes.py): the same in both tiers
+_QF = {'mech:cat:default-namespace-not-lower': 123, 'mech:cat:legacy-dotted-key': 147,
+       'mech:cte:named-like-model': 72, 'mech:dbt:target-without-database': 95, 'mech:join:same-name-unaliased': 106,
+       'mech:ref:one-part-like-database': 97, 'mech:ref:schema-table-like-model': 158,
+       'mech:ts-join:target-subselect': 57, 'mech:ts-join:where-subselect': 163, 'tag:fixed': 1246,
+       'tag:shape:catalog-form:model-join': 111, 'tag:shape:catalog-form:model-select': 88,
+       'tag:shape:catalog-form:ts-join': 133, 'tag:shape:catalog-form:unqualified-model': 18,
+       'tag:shape:catalog-form:unqualified-table': 117, 'tag:shape:cte-like-model:from': 16,
+       'tag:shape:cte-like-model:join': 67, 'tag:shape:cte-like-model:sub': 16,
+       'tag:shape:dbt-unqualified-target:create': 14, 'tag:shape:dbt-unqualified-target:insert': 57,
+       'tag:shape:dbt-unqualified-target:update': 14, 'tag:shape:one-part-like-database:from': 10,
+       'tag:shape:one-part-like-database:join': 64, 'tag:shape:one-part-like-database:sub': 21,
+       'tag:shape:same-name-join:aliased': 9, 'tag:shape:same-name-join:limit': 9, 'tag:shape:same-name-join:on': 19,
+       'tag:shape:same-name-join:where': 76, 'tag:shape:schema-table-like-model:cte': 21,
+       'tag:shape:schema-table-like-model:from': 21, 'tag:shape:schema-table-like-model:in-sub': 21,
+       'tag:shape:schema-table-like-model:insert': 21, 'tag:shape:schema-table-like-model:join': 43,
+       'tag:shape:schema-table-like-model:ts': 7, 'tag:shape:schema-table-like-model:where-sub': 21,
+       'tag:shape:ts-join:target-sub': 57, 'tag:shape:ts-join:where-sub': 163}
+FLOORS = {'quick': dict(_Q, **_QF), 'thorough': dict({k: v * 12 for k, v in _Q.items()}, **_QF)}     # thorough runs 15 x the random cases
 N = {'quick': 200, 'thorough': 3000}
 
 PREPARED_COLUMNS = ['a', 'b', 'c', 'd', 'e', 's', 'p', 'c0', 'c1', 'c2', 'c3']
 KNOWN_DB = ['int1', 'int2', 'api1', 'proj', 'mindsdb']
+# the world of G-routing plus a plain model that is named like an integration (vf/gens/c10_shapes.py)
+MODELS = list(routing.MODELS) + list(c10_shapes.EXTRA_MODELS)
+TS_MODELS = {(p, m) for p, m, ts in MODELS if ts}
 QUAL_RE = re.compile(r'\b(' + '|'.join(KNOWN_DB) + r')\.', re.I)
 
 
@@ -62,12 +93,12 @@ QUAL_RE = re.compile(r'\b(' + '|'.join(KNOWN_DB) + r')\.', re.I)
 # catalogs
 def semantic(spec):
     ints = ['int1', 'int2'] + (['api1'] if spec['api'] else [])
-    return R.catalog(ints, ['proj', 'mindsdb'], spec['dn'], [(p, m) for p, m, _ in routing.MODELS])
+    return R.catalog(ints, ['proj', 'mindsdb'], spec['dn'], [(p, m) for p, m, _ in MODELS])
 
 
 def canonical(spec):
     return {'dn': spec['dn'], 'api': spec['api'], 'enc': 'dicts' if spec['api'] else 'names', 'pm': 'list',
-            'catcase': 'lower'}
+            'catcase': 'lower', 'dncase': 'lower'}
 
 
 def build_catalog(spec):
@@ -83,23 +114,26 @@ def build_catalog(spec):
         ints.append({'name': cc('proj'), 'class_type': 'project', 'type': 'project'})
     if spec['pm'] == 'list':
         pm = []
-        for p, m, ts in routing.MODELS:
+        for p, m, ts in MODELS:
             d = {'name': m, 'integration_name': cc(p)}
             if ts:
                 d.update(timeseries=True, **copy.deepcopy(ts))
             pm.append(d)
     else:
         pm = {}
-        for p, m, ts in routing.MODELS:
-            d = {} if p == 'mindsdb' else {'integration_name': cc(p)}      # legacy: namespace from predictor_namespace
+        dotted = spec['pm'] == 'legacy-dotted'      # legacy dict whose keys are 'project.name'
+        for p, m, ts in MODELS:
+            d = {} if (p == 'mindsdb' or dotted) else {'integration_name': cc(p)}   # legacy: namespace from predictor_namespace
             if ts:
                 d.update(timeseries=True, **copy.deepcopy(ts))
-            pm[m] = d
+            pm[f'{cc(p)}.{m}' if dotted else m] = d
     kw = dict(integrations=ints, predictor_metadata=pm)
     if spec['pm'] == 'legacy':
         kw['predictor_namespace'] = cc('mindsdb')
     if spec['dn'] is not None:
-        kw['default_namespace'] = spec['dn']
+        # the default_namespace argument names a database of the catalog: its spelling is a spelling of a catalog name
+        dc = {'lower': str.lower, 'upper': str.upper, 'mixed': str.capitalize}[spec.get('dncase', 'lower')]
+        kw['default_namespace'] = dc(spec['dn'])
     return kw
 
 
@@ -167,6 +201,78 @@ def original_refs(tree, cat):
         out.append((tuple(str(p) for p in i.parts), R.resolve(i.parts, cat), slot, qualifier_class(i.parts, cat), role,
                     holder, R.alias_of(i)))
     return out
+
+
+def _model_like(parts, cat):
+    body = [p.lower() for p in parts]
+    if len(body) > 1 and body[-1].isdigit():
+        body = body[:-1]
+    return len(body) >= 2 and (body[-2], body[-1]) in cat.models
+
+
+def mechanisms(orig, refs, cat, spec):
+    """feature tags that name the constellation of names / catalog a case contains (derived from the case itself, so
+    they survive shrinking and also mark cases of the random generators)"""
+    known = cat.integrations | cat.projects
+    f = set()
+    if spec['pm'] == 'legacy-dotted':
+        f.add('cat:legacy-dotted-key')
+    if spec.get('dncase', 'lower') != 'lower' and spec['dn'] is not None:
+        f.add('cat:default-namespace-not-lower')
+    for w, r, slot, q, role, holder, al in refs:
+        if r[0] == 'table' and len(w) >= 3 and w[0].lower() in known and _model_like(w[1:], cat):
+            f.add('ref:schema-table-like-model')
+        if len(w) == 1 and w[0].lower() in known:
+            f.add('ref:one-part-like-database')
+    if cat.default is not None:
+        for n in R.cte_names(orig):
+            if (cat.default, n.lower()) in cat.models:
+                f.add('cte:named-like-model')
+    joined = [(w, r, al) for w, r, slot, q, role, holder, al in refs if slot.startswith('Join.') and role == 'read']
+    for i, (w1, r1, a1) in enumerate(joined):
+        for w2, r2, a2 in joined[i + 1:]:
+            if a1 is None and a2 is None and r1[0] == r2[0] == 'table' and r1[2] == r2[2] and r1[1] != r2[1]:
+                f.add('join:same-name-unaliased')
+
+    def is_ts(n):
+        if type(n).__name__ != 'Identifier':
+            return False
+        r = R.resolve(n.parts, cat)
+        return r[0] == 'model' and (r[1], r[2][0].lower()) in TS_MODELS
+
+    def leaves(j):
+        return leaves(j.left) + leaves(j.right) if type(j).__name__ == 'Join' else [j]
+
+    ts_selects = {}
+    for n in walk(orig):
+        if type(n).__name__ == 'Select' and type(n.from_table).__name__ == 'Join':
+            lv = leaves(n.from_table)
+            if any(is_ts(x) for x in lv):
+                ts_selects[id(n)] = any(type(x).__name__ == 'Select' for x in lv)
+    if ts_selects:
+        ctx = R.ref_contexts(orig)
+        for i, role, slot in R.table_refs(orig):
+            for sel, field in ctx.get(id(i), []):
+                if id(sel) in ts_selects and field in ('where', 'targets'):
+                    f.add('ts-join:where-subselect' if field == 'where' else 'ts-join:target-subselect')
+        if any(ts_selects.values()) and any(role == 'target' and q == 'q:none' for w, r, slot, q, role, holder, al in refs):
+            f.add('dbt:target-without-database')
+    return sorted(f)
+
+
+def column_owners(orig, cat):
+    """{column name: place} for the column names that the statement writes only with a full name
+    database.table.column and only for one database: conditions on them belong to the tables of that place"""
+    known = cat.integrations | cat.projects
+    tabs = {id(i) for i, _, _ in R.table_refs(orig)}
+    own = {}
+    for i in R.identifiers(orig):
+        if id(i) in tabs or not i.parts or not isinstance(i.parts[-1], str):
+            continue
+        parts = [str(p) for p in i.parts]
+        place = parts[0].lower() if len(parts) >= 3 and parts[0].lower() in known else '?'
+        own.setdefault(parts[-1], set()).add(place)
+    return {c: next(iter(ps)) for c, ps in own.items() if len(ps) == 1 and '?' not in ps}
 
 
 def route_failures(orig, steps, pre, cat):
@@ -258,6 +364,20 @@ def route_failures(orig, steps, pre, cat):
     for st_, parts, under in obs.foreign:
         add('foreign-column', 'fetch-identifier', ['in-cte-definition'] if under else [], f'identifier {parts} in the query of step {st_} belongs to '
                                                       f'another database')
+    owners = column_owners(orig, cat)
+    if owners:
+        tab_names = {str(i.parts[-1]) for i, _, _ in R.table_refs(orig)}
+        for s in R.all_steps(steps):
+            if type(s).__name__ not in R.FETCH or s.query is None:
+                continue
+            place = str(s.integration).lower()
+            qtabs = {id(t) for t, _, _ in R.table_refs(s.query)}
+            for i in R.identifiers(s.query):
+                c = str(i.parts[-1]) if i.parts else None
+                if id(i) not in qtabs and c in owners and owners[c] != place and c not in tab_names:
+                    add('foreign-column', 'fetch-condition', ['column-of-table-elsewhere'],
+                        f'column {c} is written only as {owners[c]}.<table>.{c}, but the query of step {s.step_num} for '
+                        f'{place} mentions it: {str(s.query)[:120]}')
     for c, parts, al in obs.strays:
         add('table-in-dataframe-step', c, [h for w, _, _, _, _, h, a in refs if (w, a) == (parts, al)] or ['holder:?'],
             f'{obs.strays[:3]}: a table reference is left in a step that runs on dataframes')
@@ -323,7 +443,7 @@ def judge(case, col):
     cat = semantic(spec)
     cfg = {'dn': str(spec['dn']), 'enc': spec['enc'] + '/' + spec['pm'], 'mode': mode}
     classes = ['dn:' + str(spec['dn']), 'enc:' + spec['enc'], 'pm:' + spec['pm'], 'catcase:' + spec['catcase'],
-               'mode:' + mode, 'api:' + str(spec['api'])] + ['tag:' + t for t in tags]
+               'mode:' + mode, 'api:' + str(spec['api']), 'dncase:' + spec.get('dncase', 'lower')] + ['tag:' + t for t in tags]
     try:
         tree = parse_sql(sql, 'mindsdb')
     except Exception as e:
@@ -331,6 +451,8 @@ def judge(case, col):
         return []
     orig = clone(tree)
     refs = original_refs(orig, cat)
+    mech = mechanisms(orig, refs, cat, spec)
+    classes += ['mech:' + m for m in mech]
     exp_reads, exp_targets = R.expected_routes(orig, cat)
     # harness self-check: the generator's own expectation agrees with walker + resolver
     if 'refs' in meta:
@@ -380,7 +502,7 @@ def judge(case, col):
     if unroutable:
         classes.append('unroutable')
         if res[0] == 'plan':
-            out.append(findings.record('unroutable-planned', 'plan', sorted(plan_tags(res[1])), cfg,
+            out.append(findings.record('unroutable-planned', 'plan', sorted(plan_tags(res[1]) | set(mech)), cfg,
                                        f'no default namespace and no database for {unroutable}, yet planned: '
                                        f'{[type(s).__name__ for s in res[1]]}', sql))
         col.case(key, nontrivial and res[0] == 'refused', classes, sample)
@@ -390,7 +512,7 @@ def judge(case, col):
         _, bres, bfails = run('base')
         if bres[0] == 'plan' and not bfails:
             site = site_of(res[1]) if res[0] == 'error' else type(res[1]).__name__
-            f = set(causes()) | path_tags(bres[1])
+            f = set(causes()) | path_tags(bres[1]) | set(mech)
             if any(r[3] == 'q:not-lower' and r[2].startswith('Join.') for r in refs):
                 f.add('join-operand:not-lower')
             if any(r[3] == 'q:not-lower' and r[2] == 'Select.from_table' for r in refs):
@@ -420,13 +542,13 @@ def judge(case, col):
                 extra = ['lowercase:fails']
             else:
                 extra = ['lowercase:passes'] + causes()
-            out.append(findings.record(kind, site, sorted(set(f) | set(extra) | path_tags(steps)), cfg,
+            out.append(findings.record(kind, site, sorted(set(f) | set(extra) | path_tags(steps) | set(mech)), cfg,
                                        detail + f'; steps: {[type(s).__name__ for s in steps]}', sql))
     else:
         _, bres, bfails = run('base')
         if bres[0] != 'plan':
             out.append(findings.record('spelling-changes-outcome', 'base:' + type(bres[1]).__name__,
-                                       sorted(path_tags(steps) | set(causes())), cfg,
+                                       sorted(path_tags(steps) | set(causes()) | set(mech)), cfg,
                                        f'planned, but the lower-case spelling under the canonical catalog gives '
                                        f'{type(bres[1]).__name__}: {str(bres[1])[:150]}', sql))
         else:
@@ -435,7 +557,7 @@ def judge(case, col):
                 d = sdiff(normalised(bres[2], cat), normalised(pre, cat))
             if d is not None:
                 path = re.sub(r'\[\d+\]', '[]', d[0])[-60:]
-                out.append(findings.record('spelling-changes-plan', path, sorted(path_tags(steps) | set(causes())), cfg,
+                out.append(findings.record('spelling-changes-plan', path, sorted(path_tags(steps) | set(causes()) | set(mech)), cfg,
                                            f'at {d[0]}: lower-case/canonical {str(d[1])[:120]} vs given {str(d[2])[:120]}',
                                            sql))
     col.case(key, nontrivial, classes + (['nonlower'] if nonlower else []) + (['multi-place'] if len(places) >= 2 else [])
@@ -478,4 +600,13 @@ def cases(draw):
 
 
 def run_shard(col, k, nshards, tier, seed):
+    fixed = c10_shapes.fixed_cases()
+    for i, c in enumerate(fixed):
+        if i % nshards == k:
+            for rec in judge(c, col):
+                col.fail(rec, c)
+    col.exhaustive_parts.append(f'{len(fixed)} statements of vf/gens/c10_shapes.py: shapes (catalog forms, schema.table '
+                                f'named like a model, one-part name like a database, CTE named like a model, sub-selects of a '
+                                f'time-series join, equally named tables of two places, dbt shape without a database in '
+                                f'the target) x default namespace x catalog form x spelling')
     hyp.explore(col, cases(), judge, N[tier], seed, shrink_key=lambda r: (r['kind'], r['site'][:40]))
